@@ -102,6 +102,10 @@ def proposals(tier: str, rng: random.Random) -> list[tuple]:
     long_payload = (b"get http://evil-site.net/malware.exe now; " * 14)[:560]
     out.append((("psbytes",), long_payload))
     out.append((("psbytesZ",), long_payload))
+    # a payload whose byte values all have two decimal digits (upper-case text): the array also reads as comma-separated hex pairs
+    upper_payload = (b"BEACON TO 10.20.30.40 AND 172.16.5.9 EVERY HOUR; " * 14)[:560]      # (nothing in it that flattening normalises)
+    out.append((("psbytes",), upper_payload))
+    out.append((("psbytes", "FromBase64String"), upper_payload[:505]))
     out.append((("psbytesZ", "FromBase64String"), long_payload[:505]))
     out.append((("b64", "psbytes"), long_payload[:390]))
     # a byte array directly under the layer kinds whose text stays short, and above a few others (TLC re-encodes these:
@@ -126,7 +130,7 @@ def run(prop: str, tier: str) -> int:
     md = Multidecoder()
     events = []
     for i, (stack, p) in enumerate(proposals(tier, rng)):
-        payload, indicators = (PAYLOADS[p] if isinstance(p, int) else (p, [("network.url", b"http://evil-site.net/malware.exe")]))
+        payload, indicators = (PAYLOADS[p] if isinstance(p, int) else (p, [("network.ip", b"10.20.30.40")] if p.isupper() else [("network.url", b"http://evil-site.net/malware.exe")]))
         text = payload
         for k in stack:
             text = ENC[k](text)
@@ -141,7 +145,12 @@ def run(prop: str, tier: str) -> int:
         ev = {"stack": list(stack), "payload": b2l(payload), "pre": b2l(pre), "suf": b2l(suf), "input": b2l(data),
               "indicators": [{"ty": t, "val": b2l(v)} for t, v in indicators], "found": [], "flat": [], "raised": ""}
         try:
-            tree = md.scan(data)
+            if i % 4 == 3:       # the other public entry point: a node prepared by the caller (constructor's default span)
+                from multidecoder.node import Node
+
+                tree = md.scan_node(Node("", data))
+            else:
+                tree = md.scan(data)
             ev["found"] = found_nested(tree)
             ev["flat"] = b2l(tree.flatten())
         except Exception as e:  # noqa: BLE001
